@@ -82,7 +82,7 @@ def run_chunk(binary, reqs, env=None, args=()):
     return res
 
 
-def expand_all(binary, inputs, idents=False, jobs=None, env=None):
+def expand_all(binary, inputs, idents=False, jobs=None, env=None, noraw=False, hashbody=False):
     """inputs: list of source texts.  Returns list of result dicts in order (parallel over chunks)."""
     jobs = jobs or core.JOBS
     n = len(inputs)
@@ -91,7 +91,7 @@ def expand_all(binary, inputs, idents=False, jobs=None, env=None):
     size = max(1, -(-n // (jobs * 4)))
     chunks = [(s, inputs[s:s + size]) for s in range(0, n, size)]
     out = [None] * n
-    args = ['--idents'] if idents else []
+    args = (['--idents'] if idents else []) + (['--no-raw'] if noraw else []) + (['--hash-body'] if hashbody else [])
 
     def work(ch):
         s, part = ch
